@@ -16,7 +16,16 @@ import (
 // UInt32 carried in a header. One group is varied at a time.
 func VerifC02_a6_mixed() {
 	p := &svc.MixedPayload{Org: "o", Tenant: "t"}
-	switch nondetChoice("focus", 5) {
+	idsKind := 0
+	switch nondetChoice("focus", 6) {
+	case 5: // query array of a non-string primitive with a default
+		idsKind = nondetChoice("ids", 3)
+		switch idsKind {
+		case 1:
+			p.Ids = []int{nondetInt("i0")}
+		case 2:
+			p.Ids = []int{nondetInt("i0"), nondetInt("i1")}
+		}
 	case 0: // inherited locations
 		p.Org = nondetString("org", 1)
 		verifAssume(p.Org != "/" && p.Org != "." && visible(p.Org))
@@ -95,10 +104,43 @@ func VerifC02_a6_mixed() {
 			}
 		}
 	}
+	if idsKind == 0 {
+		verifAssert("mixed:unset-query-array-arrives-as-default", len(got.Ids) == 2 && got.Ids[0] == 1 && got.Ids[1] == 2)
+	} else {
+		verifAssert("mixed:query-array", len(got.Ids) == len(p.Ids) && got.Ids[0] == p.Ids[0] && (len(p.Ids) < 2 || got.Ids[1] == p.Ids[1]))
+	}
 	verifAssert("mixed:header-array-length", len(got.Nums) == len(p.Nums))
 	for i := range p.Nums {
 		if i < len(got.Nums) {
 			verifAssert("mixed:header-array-elem", got.Nums[i] == p.Nums[i])
 		}
 	}
+}
+
+// VerifC02_a6_login: the service-level query parameter "ver" is defined with a
+// default and a maximum here, and as a plain optional attribute in "mixed".
+func VerifC02_a6_login() {
+	p := &svc.LoginPayload{Org: "o", Tenant: nondetString("tenant", 1), Ver: 7}
+	verifAssume(visible(p.Tenant))
+	verSet := nondetBool("ver-set")
+	if verSet {
+		p.Ver = nondetUint("ver")
+		verifAssume(p.Ver <= 100 && p.Ver != 0)
+	}
+	c := client.NewClient("http", "example.com", nil, nil, nil, false)
+	req, err := c.BuildLoginRequest(context.Background(), p)
+	verifAssert("login:request-built", err == nil)
+	if err != nil {
+		return
+	}
+	verifAssert("login:request-encoded", client.EncodeLoginRequest(func(*http.Request) goahttp.Encoder {
+		return stubEncoder{func(b any) error { return nil }}
+	})(req, p) == nil)
+	x := a6ServeBoth(req, nil, nil, &svc.LoginResult{Session: "s", User: "u"})
+	verifAssert("login:reaches-the-method", x.gotLogin != nil)
+	if x.gotLogin == nil {
+		return
+	}
+	verifAssert("login:service-level-header", x.gotLogin.Tenant == p.Tenant)
+	verifAssert("login:service-level-query-parameter-with-default", x.gotLogin.Ver == p.Ver)
 }
